@@ -129,7 +129,7 @@ def tappable(nodes, out):
 
 def scenario(sid, steps, exec_='local', **cfg):
     d = {'id': sid, 'exec': exec_, 'parallelism': 0, 'maxload': 0, 'machcomb': False, 'machprocs': 0, 'chunk': 0,
-         'canary': 0, 'spillbatch': 0, 'gomaxprocs': 0, 'steps': steps, 'timeout_s': 120}
+         'canary': 0, 'spillbatch': 0, 'gomaxprocs': 0, 'steps': steps, 'timeout_s': 120, 'isolate': False}
     d.update(cfg)
     return d
 
